@@ -244,7 +244,7 @@ func glueTyped(dir string) (*typedInfo, error) {
 		fmt.Fprintf(&sb, "func (h *simTyped) NewError%s {\n\tvar simRes %s\n\th.ne(ctx, err, &simRes)\n\treturn simRes\n}\n\n", newErrorSig, rt)
 	}
 	if clientSec {
-		sb.WriteString("type simSrc struct{ fill func(any) }\n\n")
+		sb.WriteString("type simSrc struct{ fill func(context.Context, any) }\n\n")
 		for _, m := range source {
 			if strings.TrimSpace(m.results) == "error" {
 				fmt.Fprintf(&sb, "func (s simSrc) %s%s error {\n\treturn nil\n}\n\n", m.name, m.params)
@@ -255,7 +255,7 @@ func glueTyped(dir string) (*typedInfo, error) {
 			if i < 0 {
 				return nil, fmt.Errorf("typed glue: cannot read results of security source method %s", m.name)
 			}
-			fmt.Fprintf(&sb, "func (s simSrc) %s%s %s {\n\tvar simRes %s\n\ts.fill(&simRes)\n\treturn simRes, nil\n}\n\n", m.name, m.params, m.results, strings.TrimSpace(inner[:i]))
+			fmt.Fprintf(&sb, "func (s simSrc) %s%s %s {\n\tvar simRes %s\n\ts.fill(ctx, &simRes)\n\treturn simRes, nil\n}\n\n", m.name, m.params, m.results, strings.TrimSpace(inner[:i]))
 		}
 	}
 	sb.WriteString("// SimWebhooks maps a webhook operation to the webhook it belongs to.\nvar SimWebhooks = map[string]string{")
@@ -292,9 +292,9 @@ func glueTyped(dir string) (*typedInfo, error) {
 		sb.WriteString("},\n")
 	}
 	sb.WriteString("}\n\n")
-	sb.WriteString("// SimTypedNew builds one server and one client (and the webhook pair, if any) around the callbacks.\nfunc SimTypedNew(cb func(ctx context.Context, op string, args []any, res any) error, ne func(ctx context.Context, err error, res any), fill func(any), hc ht.Client, eh func(context.Context, http.ResponseWriter, *http.Request, error), mws ...middleware.Middleware) (http.Handler, any, any, error) {\n")
+	sb.WriteString("// SimTypedNew builds one server and one client (and the webhook pair, if any) around the callbacks.\nfunc SimTypedNew(cb func(ctx context.Context, op string, args []any, res any) error, ne func(ctx context.Context, err error, res any), fill func(context.Context, any), saw func(context.Context, any), hc ht.Client, eh func(context.Context, http.ResponseWriter, *http.Request, error), mws ...middleware.Middleware) (http.Handler, any, any, error) {\n")
 	if serverSec {
-		sb.WriteString("\tsrv, err := NewServer(&simTyped{cb: cb, ne: ne}, simSec{}, WithMiddleware(mws...), WithErrorHandler(eh))\n")
+		sb.WriteString("\tsrv, err := NewServer(&simTyped{cb: cb, ne: ne}, simSec{saw: saw}, WithMiddleware(mws...), WithErrorHandler(eh))\n")
 	} else {
 		sb.WriteString("\tsrv, err := NewServer(&simTyped{cb: cb, ne: ne}, WithMiddleware(mws...), WithErrorHandler(eh))\n")
 	}
@@ -307,7 +307,7 @@ func glueTyped(dir string) (*typedInfo, error) {
 	sb.WriteString("\tif err != nil {\n\t\treturn nil, nil, nil, err\n\t}\n")
 	if withWH {
 		if whServerSec {
-			sb.WriteString("\twhs, err := NewWebhookServer(&simTypedWH{cb: cb}, simSec{}, WithMiddleware(mws...), WithErrorHandler(eh))\n")
+			sb.WriteString("\twhs, err := NewWebhookServer(&simTypedWH{cb: cb}, simSec{saw: saw}, WithMiddleware(mws...), WithErrorHandler(eh))\n")
 		} else {
 			sb.WriteString("\twhs, err := NewWebhookServer(&simTypedWH{cb: cb}, WithMiddleware(mws...), WithErrorHandler(eh))\n")
 		}
